@@ -143,12 +143,20 @@ fn run<H: HashChain>(op: &str, a: &Args) -> Option<String> {
         }
         "keygen" => {
             let params = parse_params::<H>(a.s("params")?)?;
-            let seedb = a.bytes("seed")?;
-            if seedb.len() != n {
-                return None;
-            }
-            let mut seed = Seed::<H>::default();
-            seed.as_mut_slice().copy_from_slice(&seedb);
+            // seed=<n bytes> (Seed::default + as_mut_slice) or seedfull=<32 bytes> (Seed::from([u8; 32]): bytes beyond the hash
+            // length are carried by the Seed object but are not part of the seed)
+            let seed = if let Some(full) = a.bytes("seedfull") {
+                let arr: [u8; 32] = full.try_into().ok()?;
+                Seed::<H>::from(arr)
+            } else {
+                let seedb = a.bytes("seed")?;
+                if seedb.len() != n {
+                    return None;
+                }
+                let mut seed = Seed::<H>::default();
+                seed.as_mut_slice().copy_from_slice(&seedb);
+                seed
+            };
             let mut aux = a.opt_bytes("aux")?;
             let (res, used) = match aux.as_mut() {
                 None => (hbs_lms::keygen::<H>(&params, &seed, None), 0),
@@ -177,36 +185,39 @@ fn run<H: HashChain>(op: &str, a: &Args) -> Option<String> {
                 _ => return None,
             };
             let mut aux = a.opt_bytes("aux")?;
-            let mut calls: Vec<Vec<u8>> = vec![];
+            let calls: std::cell::RefCell<Vec<Vec<u8>>> = std::cell::RefCell::new(vec![]);
             let mut cb = |k: &[u8]| -> Result<(), ()> {
-                calls.push(k.to_vec());
+                calls.borrow_mut().push(k.to_vec());
                 if accept {
                     Ok(())
                 } else {
                     Err(())
                 }
             };
-            let (res, used) = match aux.as_mut() {
+            // the library call runs under its own catch_unwind so that the callback trace survives a panic
+            let outcome = catch_unwind(AssertUnwindSafe(|| match aux.as_mut() {
                 None => (hbs_lms::sign::<H>(&msg, &sk, &mut cb, None), 0),
                 Some(buf) => {
                     let mut slice: &mut [u8] = &mut buf[..];
                     let r = hbs_lms::sign::<H>(&msg, &sk, &mut cb, Some(&mut slice));
                     (r, slice.len())
                 }
-            };
+            }));
+            let calls = calls.into_inner();
             let cbs = if calls.is_empty() {
                 "none".to_string()
             } else {
                 calls.iter().map(|c| hex(c)).collect::<Vec<_>>().join(",")
             };
-            match res {
-                Ok(sig) => format!(
+            match outcome {
+                Err(_) => format!("panic@{} cb={}", LAST_PANIC.with(|p| p.borrow().clone()), cbs),
+                Ok((Ok(sig), used)) => format!(
                     "ok sig={} cb={}{}",
                     hex(sig.as_ref()),
                     cbs,
                     aux_suffix(&aux, used)
                 ),
-                Err(_) => format!("err cb={}{}", cbs, aux_suffix(&aux, used)),
+                Ok((Err(_), used)) => format!("err cb={}{}", cbs, aux_suffix(&aux, used)),
             }
         }
         "trysign" => {
